@@ -189,8 +189,15 @@ def run(ctx, ck) -> None:
     c01._r_red(sub, world, table)
     c01._r_ident(sub, world, table)
     c01._r_drv(sub, world, table)
+    # a rule that deletes a pair, or replaces it by a diagonal / a merged block operator, asserts in particular that
+    # the structures of the replacement are those of the pair
+    rules = table.rules()
+    infos = {r.qual: c01.rule_info(table, r) for r in rules}
+    c01._r_del(sub, world, table, rules, infos)
+    c01._r_blk(sub, world, table, rules, infos)
+    c01._r_ptp(sub, world, table)
     for o in sub.obs:
-        if o.rule.endswith(('R-NARY', 'R-RED', 'R-IDENT', 'R-DRV')):
+        if o.rule.endswith(('R-NARY', 'R-RED', 'R-IDENT', 'R-DRV', 'R-DEL', 'R-BLK', 'R-PTP')):
             o.rule = f'{ck.pid}.O6'
             ck.obs.append(o)
     ck.floor('O6', sum(1 for o in ck.obs if o.rule.endswith('O6')), 15, 'structure obligations on reduced operators')
